@@ -234,8 +234,8 @@ Step(ev) ==
      /\ Chk({"C09", "C11"}, "LraValuesAreModel", stable => LraValuesOK(S.atoms, ev, defs2))
      /\ Chk({"C09"}, "LraBoundsContainSolutions", (stable /\ changed) => LraBoundsOK(S.atoms, ev, vis2, defs2))
      \* C10
-     /\ Chk({"C10"}, "IdlDistancesExact", (stable /\ changed) => DlExact(S.atoms, ev, "idl", nI, IdlD(ev)))
-     /\ Chk({"C10"}, "RdlDistancesExact", (stable /\ changed) => DlExact(S.atoms, ev, "rdl", nR, RdlD(ev)))
+     /\ Chk({"C10", "C12"}, "IdlDistancesExact", (stable /\ changed) => DlExact(S.atoms, ev, "idl", nI, IdlD(ev)))
+     /\ Chk({"C10", "C12"}, "RdlDistancesExact", (stable /\ changed) => DlExact(S.atoms, ev, "rdl", nR, RdlD(ev)))
      /\ Chk({"C10"}, "IdlPropagated", stable => DlPropagated(S.atoms, ev, "idl", IdlD(ev)))
      /\ Chk({"C10"}, "RdlPropagated", stable => DlPropagated(S.atoms, ev, "rdl", RdlD(ev)))
      \* C08
